@@ -216,6 +216,7 @@ class FutureImplBase : private FutureImplResultMember<Result> {
       if (status_.intrusiveStatus().compare_exchange_weak(s, kRunning, std::memory_order_acq_rel)) {
         DISPENSO_VERIF_POINT(::dispenso::verif::kFutureRunAfterCas);
         runFunc();
+        DISPENSO_VERIF_POINT(::dispenso::verif::kFutureRunBeforeNotify);
         status_.notify(kReady);
         DISPENSO_VERIF_POINT(::dispenso::verif::kFutureRunAfterNotify);
         if (taskSetCounter_) {
